@@ -281,10 +281,16 @@ def rng_streams(draw, tier):
         st.text(alphabet=digits, min_size=8, max_size=8),
         st.text(alphabet=chars, min_size=8, max_size=8),
         st.text(alphabet=digits + "abXY", min_size=8, max_size=8)), min_size=1, max_size=6))
+    good = draw(st.text(alphabet=chars, min_size=8, max_size=8)).encode()
+    i = draw(st.integers(0, 7))
+    odd = draw(st.one_of(st.integers(0, 255), st.sampled_from([10, 13, 0, 32, 9, 0x80, 0xFF])))
     return {"stream": "".join(blocks),
             "probe": draw(st.one_of(st.binary(max_size=12),
                                     st.text(alphabet=chars + "!_ ", max_size=10).map(
-                                        lambda t: t.encode())))}
+                                        lambda t: t.encode()),
+                                    st.just(good), st.just(good[:i] + bytes([odd]) + good[i + 1:]),
+                                    st.just(good[:7] + bytes([odd])),
+                                    st.just(good + bytes([odd]))))}
 
 
 def run_generator(c):
